@@ -10,6 +10,11 @@ use std::panic::{catch_unwind, AssertUnwindSafe};
 
 mod kernels;
 
+thread_local! {
+    /// the level last selected with `P plat` on this thread ("detect" = no override)
+    pub static CURRENT_PLAT: std::cell::RefCell<String> = std::cell::RefCell::new("detect".to_string());
+}
+
 fn hex(b: &[u8]) -> String {
     let mut s = String::with_capacity(b.len() * 2);
     for x in b {
@@ -221,6 +226,7 @@ fn step(st: &mut St, t: &[&str]) -> Option<String> {
     match t {
         ["P", "plat", p] => {
             if blake3::platform::verif_hooks::set_platform_override(p) {
+                CURRENT_PLAT.with(|c| *c.borrow_mut() = p.to_string());
                 ok
             } else {
                 Some("unsupported".into())
@@ -524,6 +530,53 @@ fn step(st: &mut St, t: &[&str]) -> Option<String> {
             let bytes = unsafe { std::slice::from_raw_parts(&h as *const _ as *const u8, std::mem::size_of::<blake3::Hasher>()) };
             Some(format!("{} {}", bytes.len(), bytes.iter().filter(|b| **b != 0).count()))
         }
+        // zeroize, secret-bearing bytes only: positions where two objects with equal public state but
+        // different secrets differ must all be zero after zeroize() (no knowledge of field offsets needed).
+        // prints `<size> <secret-bearing positions> <of those, non-zero after zeroize in either object>`
+        ["D", "zerocmph", a, b] => {
+            use zeroize::Zeroize;
+            let (mut ha, mut hb) = (st.hs.get(*a)?.clone(), st.hs.get(*b)?.clone());
+            let n = std::mem::size_of::<blake3::Hasher>();
+            let raw = |h: &blake3::Hasher| unsafe { std::slice::from_raw_parts(h as *const _ as *const u8, n) }.to_vec();
+            let (ra, rb) = (raw(&ha), raw(&hb));
+            ha.zeroize();
+            hb.zeroize();
+            let (za, zb) = (raw(&ha), raw(&hb));
+            let secret: Vec<usize> = (0..n).filter(|i| ra[*i] != rb[*i]).collect();
+            let left = secret.iter().filter(|i| za[**i] != 0 || zb[**i] != 0).count();
+            Some(format!("{} {} {}", n, secret.len(), left))
+        }
+        ["D", "zerocmpx", a, b] => {
+            use zeroize::Zeroize;
+            let (mut ha, mut hb) = (st.xs.get(*a)?.clone(), st.xs.get(*b)?.clone());
+            let n = std::mem::size_of::<blake3::OutputReader>();
+            let raw = |h: &blake3::OutputReader| unsafe { std::slice::from_raw_parts(h as *const _ as *const u8, n) }.to_vec();
+            let (ra, rb) = (raw(&ha), raw(&hb));
+            ha.zeroize();
+            hb.zeroize();
+            let (za, zb) = (raw(&ha), raw(&hb));
+            let secret: Vec<usize> = (0..n).filter(|i| ra[*i] != rb[*i]).collect();
+            let left = secret.iter().filter(|i| za[**i] != 0 || zb[**i] != 0).count();
+            Some(format!("{} {} {}", n, secret.len(), left))
+        }
+        // the same with objects built by one non-inlined constructor called with different secrets, so that
+        // whatever the padding bytes happen to contain is the same in every object unless it is secret-derived
+        ["D", "zeroscan", kind, len, extra] => {
+            let len: usize = len.parse().ok()?;
+            let extra: usize = extra.parse().ok()?;
+            let snaps: Vec<(Vec<u8>, Vec<u8>)> = (1..=4u64).map(|seed| zero_snap(kind, len, extra, seed)).collect::<Option<Vec<_>>>()?;
+            let n = snaps[0].0.len();
+            let secret: Vec<usize> = (0..n).filter(|i| snaps.iter().any(|s| s.0[*i] != snaps[0].0[*i])).collect();
+            let left = secret.iter().filter(|i| snaps.iter().any(|s| s.1[**i] != 0)).count();
+            let nonzero_after = (0..n).filter(|i| snaps.iter().any(|s| s.1[*i] != 0)).count();
+            Some(format!("{} {} {} {}", n, secret.len(), left, nonzero_after))
+        }
+        ["D", "zerohash", a] => {
+            use zeroize::Zeroize;
+            let mut h = st.hs.get(*a)?.finalize();
+            h.zeroize();
+            Some(hex(h.as_bytes()))
+        }
         ["D", "zerox", x] => {
             use zeroize::Zeroize;
             let mut h = st.xs.get(*x)?.clone();
@@ -534,6 +587,39 @@ fn step(st: &mut St, t: &[&str]) -> Option<String> {
         // ---- Hash conversions
         ["E", rest @ ..] => conv_step(rest),
         [""] | [] => Some(String::new()),
+        _ => None,
+    }
+}
+
+#[inline(never)]
+fn zero_snap(kind: &str, len: usize, extra: usize, seed: u64) -> Option<(Vec<u8>, Vec<u8>)> {
+    use zeroize::Zeroize;
+    fn raw<T>(h: &T) -> Vec<u8> {
+        unsafe { std::slice::from_raw_parts(h as *const T as *const u8, std::mem::size_of::<T>()) }.to_vec()
+    }
+    let key: [u8; 32] = pat(32, seed.wrapping_mul(77)).try_into().ok()?;
+    let mut h = blake3::Hasher::new_keyed(&key);
+    h.update(&pat(len, seed));
+    match kind {
+        "h" => {
+            let before = raw(&h);
+            h.zeroize();
+            Some((before, raw(&h)))
+        }
+        "x" => {
+            let mut x = h.finalize_xof();
+            let mut buf = vec![0u8; extra];
+            x.fill(&mut buf);
+            let before = raw(&x);
+            x.zeroize();
+            Some((before, raw(&x)))
+        }
+        "hash" => {
+            let mut d = h.finalize();
+            let before = raw(&d);
+            d.zeroize();
+            Some((before, raw(&d)))
+        }
         _ => None,
     }
 }
@@ -630,8 +716,67 @@ fn conv_step(t: &[&str]) -> Option<String> {
     }
 }
 
+fn run_line(st: &mut St, line: &str) -> String {
+    let toks: Vec<&str> = line.trim().split(' ').collect();
+    let backup_h = match toks.as_slice() {
+        ["H", _, r, ..] | ["T", _, r, ..] => st.hs.get(*r).cloned().map(|h| (r.to_string(), h)),
+        _ => None,
+    };
+    let res = catch_unwind(AssertUnwindSafe(|| step(st, &toks)));
+    match res {
+        Ok(Some(s)) => s,
+        Ok(None) => "bad-op".to_string(),
+        Err(_) => {
+            if let Some((r, h)) = backup_h {
+                st.hs.insert(r, h);
+            }
+            "PANIC".to_string()
+        }
+    }
+}
+
+/// `--threads`: stdin is a sequence of sections introduced by `#thread` lines; every section runs
+/// on its own thread with its own registers, all released together by a barrier, so that the very
+/// first calls into the library (CPU feature detection) race. Output: same line structure.
+fn main_threads() {
+    let mut input = String::new();
+    std::io::stdin().read_to_string(&mut input).unwrap();
+    let mut sections: Vec<Vec<String>> = Vec::new();
+    for line in input.lines() {
+        if line.trim() == "#thread" {
+            sections.push(Vec::new());
+        } else if let Some(last) = sections.last_mut() {
+            last.push(line.to_string());
+        }
+    }
+    let barrier = std::sync::Arc::new(std::sync::Barrier::new(sections.len().max(1)));
+    let handles: Vec<_> = sections
+        .into_iter()
+        .map(|sec| {
+            let b = barrier.clone();
+            std::thread::spawn(move || {
+                let mut st = St::default();
+                b.wait();
+                sec.iter().map(|l| run_line(&mut st, l)).collect::<Vec<String>>()
+            })
+        })
+        .collect();
+    let stdout = std::io::stdout();
+    let mut out = std::io::BufWriter::new(stdout.lock());
+    for h in handles {
+        writeln!(out, "#thread").unwrap();
+        for l in h.join().unwrap() {
+            writeln!(out, "{}", l).unwrap();
+        }
+    }
+    out.flush().unwrap();
+}
+
 fn main() {
     std::panic::set_hook(Box::new(|_| {}));
+    if std::env::args().any(|a| a == "--threads") {
+        return main_threads();
+    }
     let stdin = std::io::stdin();
     let stdout = std::io::stdout();
     let mut out = std::io::BufWriter::new(stdout.lock());
